@@ -17,15 +17,12 @@ theorem Rel.transfer {cfg : Cfg} {gen : Nat → Bytes} {G : List Bytes} {q : Req
     (hn : h.c.st.nid ≤ st'.nid) (G' : List Bytes) :
     Rel cfg gen G' q (h.withSt st') { r with s := s', gens := G' } := by
   refine ⟨hst, rfl, ⟨?_, ?_⟩, hrel.mw.mono hn, hrel.cur.mono hn, hrel.destroyed, hrel.viaMw, hrel.mwCtx,
-    hrel.mwLive, ?_⟩
+    hrel.mwLive, hrel.req⟩
   · intro v hv; exact (hrel.out.ck v hv).mono hn
   · intro v hv; exact (hrel.out.hd v hv).mono hn
-  · intro a b
-    have u := hrel.pre a b
-    exact ⟨u.ck, u.hd, u.qr, u.locals, u.cur⟩
 
-theorem Flags.transfer {r : SReq} {l d : Bool} (h : Flags r l d) (s' : SpecSt) (G' : List Bytes) :
-    Flags { r with s := s', gens := G' } l d := ⟨h.loaded, h.mw, h.cur⟩
+theorem Flags.transfer {r : SReq} {d : Bool} (h : Flags r d) (s' : SpecSt) (G' : List Bytes) :
+    Flags { r with s := s', gens := G' } d := ⟨h.mw, h.cur⟩
 
 /-- a request in flight against its abstract counterpart -/
 structure FRel (cfg : Cfg) (gen : Nat → Bytes) (nid : Nat) (f : Fl) (sf : SFl) : Prop where
@@ -33,7 +30,7 @@ structure FRel (cfg : Cfg) (gen : Nat → Bytes) (nid : Nat) (f : Fl) (sf : SFl)
   todo : sf.todo = f.todo
   rel : ∃ G, Rel cfg gen G f.q f.h sf.r
   le : f.h.c.st.nid ≤ nid
-  dom : ∃ l d, Flags sf.r l d ∧ scriptInDomain f.q.viaMw l d f.todo = true
+  dom : ∃ d, Flags sf.r d ∧ scriptInDomain d f.todo = true
 
 def OFRel (cfg : Cfg) (gen : Nat → Bytes) (nid : Nat) : Option Fl → Option SFl → Prop
   | none, none => True
@@ -78,7 +75,7 @@ theorem cstep_adv (hrel : WRel cfg gen w sw) (d : Nat) :
   ⟨_, rfl, ⟨strel_adv hrel.st d, hrel.fl⟩⟩
 
 theorem cstep_start (hw : WF cfg gen) (hrel : WRel cfg gen w sw) (rid : Nat) (q : Req)
-    (hdom : scriptInDomain q.viaMw false false q.script = true) :
+    (hdom : scriptInDomain false q.script = true) :
     ∃ sw', cspecStep cfg sw (.start rid q) (cstep cfg gen w (.start rid q)).2 = .ok sw' ∧
       WRel cfg gen (cstep cfg gen w (.start rid q)).1 sw' := by
   have hfl := hrel.fl rid
@@ -101,7 +98,7 @@ theorem cstep_start (hw : WF cfg gen) (hrel : WRel cfg gen w sw) (rid : Nat) (q 
       · simp [cspecStep, cstep, hf, hsf, hs0, bind, Except.bind, pure, Except.pure]
       · have := hrel.set hrel0.st hmono rid (f := some { q := q, h := startReq cfg gen w.st q, todo := q.script })
           (sf := some { q := q, r := r0, todo := q.script })
-          ⟨rfl, rfl, ⟨[], hrel0⟩, Nat.le_refl _, ⟨false, false, specStart_fields hs0, hdom⟩⟩
+          ⟨rfl, rfl, ⟨[], hrel0⟩, Nat.le_refl _, ⟨false, specStart_fields hs0, hdom⟩⟩
         simpa [cstep, hf] using this
 
 theorem cstep_step (hw : WF cfg gen) (hrel : WRel cfg gen w sw) (rid : Nat) :
@@ -131,7 +128,7 @@ theorem cstep_step (hw : WF cfg gen) (hrel : WRel cfg gen w sw) (rid : Nat) :
       | cons a rest =>
         have hst' : sf.todo = a :: rest := by rw [hfl.todo, htodo]
         obtain ⟨G0, hr0⟩ := hfl.rel
-        obtain ⟨l, d, hflags, hdom⟩ := hfl.dom
+        obtain ⟨d, hflags, hdom⟩ := hfl.dom
         rw [htodo] at hdom
         simp only [scriptInDomain, Bool.and_eq_true] at hdom
         -- refresh the request's view of the shared state, then one action of Sim.lean
@@ -147,16 +144,13 @@ theorem cstep_step (hw : WF cfg gen) (hrel : WRel cfg gen w sw) (rid : Nat) :
           · have := hrel.set hrel1.st hmono rid
               (f := some { f with h := (act cfg gen (f.h.withSt w.st) a).1, todo := rest })
               (sf := some { sf with r := r1, todo := rest })
-              ⟨hfl.q, rfl, ⟨[], hrel1⟩, Nat.le_refl _, ⟨_, _, specAct_flags hflT hs1, hdom.2⟩⟩
+              ⟨hfl.q, rfl, ⟨[], hrel1⟩, Nat.le_refl _, ⟨_, specAct_flags hflT hs1, hdom.2⟩⟩
             simpa [cstep, hf, htodo] using this
         · exfalso
-          rcases ht with ⟨ha, hv, hl⟩ | ⟨ha, v, hv, hd⟩
-          · subst ha
-            have := hflT.loaded hl
-            simp [actAllowed, hv, this] at hdom
-          · subst ha
-            have := hflT.view hv hd
-            simp [actAllowed, this] at hdom
+          obtain ⟨ha, v, hv, hd⟩ := ht
+          subst ha
+          have := hflT.view hv hd
+          simp [actAllowed, this] at hdom
 
 theorem cstep_finish (hw : WF cfg gen) (hrel : WRel cfg gen w sw) (rid : Nat) :
     ∃ sw', cspecStep cfg sw (.finish rid) (cstep cfg gen w (.finish rid)).2 = .ok sw' ∧
